@@ -252,9 +252,35 @@ def collect_named():
     return out
 
 
+def reference_text(fname):
+    """The committed copy of a generated file (git HEAD of the directory this tool lives in); falls back to the file on disk."""
+    root = os.path.normpath(os.path.join(os.path.dirname(os.path.abspath(__file__)), '..'))
+    try:
+        import subprocess
+        p = subprocess.run(['git', '-C', root, 'show', f'HEAD:lean/PyTRS/Gen/{fname}'], capture_output=True, text=True)
+        if p.returncode == 0 and p.stdout:
+            return p.stdout
+    except Exception:  # noqa
+        pass
+    try:
+        with open(os.path.join(OUT, fname), encoding='utf-8') as f:
+            return f.read()
+    except Exception:  # noqa
+        return ''
+
+
+NOTES = []          # what could not be re-derived from the source (reported; the committed reference definition is kept)
+
+
 def collect_inline():
-    """Every `re.<func>(<pattern>, ...)` whose pattern resolves to a str, keyed by a stable name."""
-    out = {}
+    """Every `re.<func>(<pattern>, ...)` whose pattern resolves to a str, keyed by a stable name.
+
+    Names are `inl_<module>_<function>_<k>`.  They are reconciled with the committed reference (patterns_meta.json) so that a
+    refactoring which adds, removes or moves ONE inline pattern of a function does not silently re-bind the others: a pattern with
+    unchanged text keeps its name wherever it now stands; if as many patterns are new as names are unaccounted for, the names go to
+    them in order (an EDITED pattern is thereby re-checked by every theorem that mentions it); names that can no longer be
+    derived from the source keep the committed definition and are reported (`fallback`)."""
+    found = {}      # (short, qual) -> [(pat, flags) | None]
     for modname in ANCHORED_MODULES:
         mod = importlib.import_module(modname)
         src = inspect.getsource(mod)
@@ -267,7 +293,6 @@ def collect_inline():
                 if isinstance(n, ast.Assign) and len(n.targets) == 1 and isinstance(n.targets[0], ast.Name):
                     if isinstance(n.value, ast.Constant) and isinstance(n.value.value, str):
                         local_consts[n.targets[0].id] = n.value.value
-            idx = 0
             calls = [n for n in ast.walk(fn_node) if isinstance(n, ast.Call)]
             calls.sort(key=lambda n: (n.lineno, n.col_offset))
             for n in calls:
@@ -283,20 +308,22 @@ def collect_inline():
                     try:
                         pat = eval(compile(ast.Expression(a), '<fstr>', 'eval'), dict(vars(mod)))
                     except Exception as e:  # noqa
-                        raise Unsupported(f"cannot resolve f-string pattern in {modname}:{n.lineno}: {e}")
+                        NOTES.append(f"cannot resolve f-string pattern in {modname}:{n.lineno}: {e}")
+                        found.setdefault((short, qual), []).append(None)
+                        continue
                 elif isinstance(a, ast.Name) and a.id in local_consts:
                     pat = local_consts[a.id]
                 elif isinstance(a, ast.Name):
                     continue     # a compiled pattern object passed by name
                 else:
-                    raise Unsupported(f"cannot resolve pattern at {modname}:{n.lineno}")
+                    NOTES.append(f"cannot resolve pattern at {modname}:{n.lineno}")
+                    found.setdefault((short, qual), []).append(None)
+                    continue
                 flags = 0
                 for kw in n.keywords:
                     if kw.arg == 'flags':
                         flags = eval(compile(ast.Expression(kw.value), '<flags>', 'eval'), {'re': re})
-                name = f"inl_{short}_{qual}_{idx}"
-                out[name] = (pat, flags)
-                idx += 1
+                found.setdefault((short, qual), []).append((pat, flags))
 
         seen_funcs = set()
         for node in ast.walk(tree):
@@ -308,6 +335,40 @@ def collect_inline():
         for node in tree.body:
             if isinstance(node, ast.FunctionDef) and id(node) not in seen_funcs:
                 visit(node, node.name)
+    # reconcile with the committed reference
+    try:
+        ref_meta = json.loads(reference_text('patterns_meta.json') or '{}')
+    except Exception:  # noqa
+        ref_meta = {}
+    ref_by_fn = {}
+    for name, m in ref_meta.items():
+        mm = re.fullmatch(r'(inl_.+)_(\d+)', name)
+        if mm:
+            ref_by_fn.setdefault(mm.group(1), []).append((int(mm.group(2)), name, (m['pattern'], m['flags'])))
+    out = {}
+    for (short, qual), items in found.items():
+        prefix = f"inl_{short}_{qual}"
+        refs = sorted(ref_by_fn.get(prefix, []))
+        if len(refs) == len(items) or not refs:
+            for idx, it in enumerate(items):
+                if it is not None:
+                    out[f"{prefix}_{idx}"] = it
+            continue
+        NOTES.append(f"{prefix}: {len(items)} inline patterns in the source, {len(refs)} in the committed reference: matched by text")
+        free = [it for it in items if it is not None]
+        unmatched = []
+        for _i, name, content in refs:
+            if content in free:
+                free.remove(content)
+                out[name] = content
+            else:
+                unmatched.append(name)
+        if len(unmatched) == len(free):
+            for name, it in zip(unmatched, free):
+                out[name] = it
+        else:
+            for k, it in enumerate(free):
+                out[f"{prefix}_new{k}"] = it
     return out
 
 
@@ -496,39 +557,71 @@ def emit_tables():
                     continue
         raise Unsupported(f"literal {var} not found")
 
-    cd = fn_consts(pp, 'cleanup_desc')
-    SL('CLEANUP_CULL_LIST', assigned_literal(cd, 'cull_list'))
-    strip_args = []
-    for n in ast.walk(cd):
-        if isinstance(n, ast.Call) and isinstance(n.func, ast.Attribute) and n.func.attr in ('lstrip', 'strip', 'rstrip'):
-            if n.args and isinstance(n.args[0], ast.Constant):
-                strip_args.append((n.func.attr, n.args[0].value))
-    L.append("def CLEANUP_STRIPS : List (String × String) := ["
-             + ', '.join(f"({lean_str(a)}, {lean_str(b)})" for a, b in strip_args) + "]")
-    sf = fn_consts(pp, 'SecFinder.findall_matching_sec')
-    SL('SECFINDER_ILLEGAL', list(assigned_literal(sf, 'illegal')))
-    # gen_flags_chunk table: the dict literal maps Name -> (flag, (l, r))
-    gf = fn_consts(pp, 'ChunkParser.gen_flags_chunk')
-    rows = []
-    for n in ast.walk(gf):
-        if isinstance(n, ast.Dict) and n.keys and all(isinstance(k, ast.Name) for k in n.keys):
-            for k, v in zip(n.keys, n.values):
-                flag, (lc, rc) = ast.literal_eval(v)
-                rows.append((k.id, flag, lc, rc))
-            break
-    if not rows:
-        raise Unsupported("gen_flags_chunk table not found")
-    L.append("def GEN_FLAGS_TABLE : List (String × String × Nat × Nat) := ["
-             + ', '.join(f"({lean_str(a)}, {lean_str(b)}, {c}, {d})" for a, b, c, d in rows) + "]")
-    from pytrs.parser.unpack import unpackers as up
-    ocr = fn_consts(up, 'ocr_scrub_alpha_to_num')
-    reps = []
-    for n in ast.walk(ocr):
-        if isinstance(n, ast.Call) and isinstance(n.func, ast.Attribute) and n.func.attr == 'replace':
-            reps.append((n.args[0].value, n.args[1].value))
-    reps_sorted = sorted(reps, key=lambda x: 0)  # ast.walk order is BFS over statements = source order here
-    L.append("def OCR_REPLACEMENTS : List (String × String) := ["
-             + ', '.join(f"({lean_str(a)}, {lean_str(b)})" for a, b in reps_sorted) + "]")
+    # Each of these literals lives inside a function body; a refactoring may move or reshape it.  When it can no longer be
+    # found the committed reference definition is kept (see with_fallback) and the fact is reported.
+    def optional(what, f):
+        try:
+            f()
+        except Exception as e:  # noqa
+            NOTES.append(f"{what}: {e}")
+
+    def t_cleanup():
+        cd = fn_consts(pp, 'cleanup_desc')
+        SL('CLEANUP_CULL_LIST', list(assigned_literal(cd, 'cull_list')))
+        strip_args = []
+        for n in ast.walk(cd):
+            if isinstance(n, ast.Call) and isinstance(n.func, ast.Attribute) and n.func.attr in ('lstrip', 'strip', 'rstrip'):
+                if n.args and isinstance(n.args[0], ast.Constant):
+                    strip_args.append((n.func.attr, n.args[0].value))
+        L.append("def CLEANUP_STRIPS : List (String × String) := ["
+                 + ', '.join(f"({lean_str(a)}, {lean_str(b)})" for a, b in strip_args) + "]")
+    optional('cleanup_desc literals', t_cleanup)
+
+    def t_illegal():
+        sf = fn_consts(pp, 'SecFinder.findall_matching_sec')
+        SL('SECFINDER_ILLEGAL', list(assigned_literal(sf, 'illegal')))
+    optional('SecFinder illegal words', t_illegal)
+
+    def t_genflags():
+        # gen_flags_chunk table: a dict literal Name -> (flag, (l, r)), or a tuple/list of rows (Name, flag, l, r) / (Name, flag, (l, r))
+        gf = fn_consts(pp, 'ChunkParser.gen_flags_chunk')
+        rows = []
+        for n in ast.walk(gf):
+            if isinstance(n, ast.Dict) and n.keys and all(isinstance(k, ast.Name) for k in n.keys):
+                for k, v in zip(n.keys, n.values):
+                    flag, (lc, rc) = ast.literal_eval(v)
+                    rows.append((k.id, flag, lc, rc))
+                break
+        if not rows:
+            for n in ast.walk(gf):
+                if isinstance(n, (ast.Tuple, ast.List)) and n.elts and all(
+                        isinstance(e, (ast.Tuple, ast.List)) and e.elts and isinstance(e.elts[0], ast.Name) for e in n.elts):
+                    for e in n.elts:
+                        rest = [ast.literal_eval(x) for x in e.elts[1:]]
+                        if len(rest) == 3:
+                            flag, lc, rc = rest
+                        else:
+                            flag, (lc, rc) = rest
+                        rows.append((e.elts[0].id, flag, lc, rc))
+                    break
+        if not rows:
+            raise Unsupported("gen_flags_chunk table not found")
+        L.append("def GEN_FLAGS_TABLE : List (String × String × Nat × Nat) := ["
+                 + ', '.join(f"({lean_str(a)}, {lean_str(b)}, {c}, {d})" for a, b, c, d in rows) + "]")
+    optional('gen_flags_chunk table', t_genflags)
+
+    def t_ocr():
+        from pytrs.parser.unpack import unpackers as up
+        ocr = fn_consts(up, 'ocr_scrub_alpha_to_num')
+        reps = []
+        for n in ast.walk(ocr):
+            if isinstance(n, ast.Call) and isinstance(n.func, ast.Attribute) and n.func.attr == 'replace':
+                reps.append((n.args[0].value, n.args[1].value))
+        if not reps:
+            raise Unsupported("ocr replacement list not found")
+        L.append("def OCR_REPLACEMENTS : List (String × String) := ["
+                 + ', '.join(f"({lean_str(a)}, {lean_str(b)})" for a, b in reps) + "]")
+    optional('ocr_scrub_alpha_to_num replacements', t_ocr)
 
     lower, upper, space, digit_starts = py_tables()
     L.append(chunked_list('PY_LOWER', 'List (Nat × List Nat)',
@@ -595,6 +688,45 @@ def write_if_changed(path, content):
     return False
 
 
+def with_fallback(new_text, fname):
+    """Definitions present in the committed reference but absent from what was just derived from the source are carried over from
+    the reference (they are one `def` per line), together with the character sets they mention; returns (text, [names])."""
+    ref = reference_text(fname)
+    if not ref:
+        return new_text, []
+
+    def defs(text):
+        d = {}
+        for line in text.split('\n'):
+            m = re.match(r'def (\S+) ', line)
+            if m:
+                d[m.group(1)] = line
+        return d
+    nd, rd = defs(new_text), defs(ref)
+    missing = [n for n in rd if n not in nd and not re.fullmatch(r'patterns(_c\d+)?', n)
+               and not re.fullmatch(r'cs_[0-9a-f]{8}(_c\d+)?', n)]
+    if not missing:
+        return new_text, []
+    carried = [rd[n] for n in missing]
+    # character sets (and their chunks) the carried definitions mention and the new text does not define
+    need, todo = [], list(carried)
+    while todo:
+        line = todo.pop()
+        for cs in re.findall(r'\bcs_[0-9a-f]{8}(?:_c\d+)?\b', line.split(':=', 1)[1] if ':=' in line else line):
+            if cs not in nd and cs in rd and rd[cs] not in need:
+                need.append(rd[cs])
+                todo.append(rd[cs])
+    lines = new_text.split('\n')
+    # character sets go right after the header (before the first def), the rest just before the registry / the end
+    first_def = next(i for i, l in enumerate(lines) if l.startswith('def '))
+    lines[first_def:first_def] = list(reversed(need))
+    anchor = next((i for i, l in enumerate(lines) if l.startswith('def patterns_c0 ')), None)
+    if anchor is None:
+        anchor = next(i for i, l in enumerate(lines) if l.startswith('end PyTRS.Gen'))
+    lines[anchor:anchor] = carried
+    return '\n'.join(lines), missing
+
+
 def main():
     os.makedirs(OUT, exist_ok=True)
     try:
@@ -605,6 +737,18 @@ def main():
     except Unsupported as e:
         print(f"translate: UNSUPPORTED: {e}", file=sys.stderr)
         sys.exit(3)
+    pats, fb1 = with_fallback(pats, 'Patterns.lean')
+    tables, fb2 = with_fallback(tables, 'Tables.lean')
+    fallback = sorted(set(n for n in fb1 + fb2 if not n.endswith('_groups') and not n.endswith('_ngroups')))
+    if fb1:
+        # keep the reference's meta for carried-over patterns
+        try:
+            ref_meta = json.loads(reference_text('patterns_meta.json') or '{}')
+            for n in fb1:
+                if n in ref_meta and n not in meta:
+                    meta[n] = ref_meta[n]
+        except Exception:  # noqa
+            pass
     changed = []
     if write_if_changed(os.path.join(OUT, 'Patterns.lean'), pats):
         changed.append('Patterns.lean')
@@ -612,7 +756,8 @@ def main():
         changed.append('Tables.lean')
     write_if_changed(os.path.join(OUT, 'patterns_meta.json'), json.dumps(meta, indent=1, sort_keys=True, ensure_ascii=False) + '\n')
     write_if_changed(os.path.join(OUT, 'fingerprints.json'), json.dumps(fingerprints(), indent=1, sort_keys=True) + '\n')
-    print(json.dumps({'changed': changed, 'patterns': len(meta), 'charsets': len(_cs_defs)}))
+    write_if_changed(os.path.join(OUT, 'fallback.json'), json.dumps({'fallback': fallback, 'notes': NOTES}, indent=1, ensure_ascii=False) + '\n')
+    print(json.dumps({'changed': changed, 'patterns': len(meta), 'charsets': len(_cs_defs), 'fallback': fallback, 'notes': NOTES[:10]}))
 
 
 if __name__ == '__main__':
